@@ -212,3 +212,28 @@ Theorem c11_flag_split_masked_high_part_refuted :
   split_ok [(0, Some 255); (8, None)]%N [0; 8]%N = true /\
   split_read (split_write 65537 [(0, Some 255); (8, None)]%N) [0; 8]%N = 65537%N.
 Proof. exact split_masked_high_part_refuted. Qed.
+
+(** * A boolean stored as one of two integer codes (DetailPropShape.is_cross in the detail type) *)
+Theorem c11_bool_code_roundtrip : forall c, bool_code_ok c = true -> forall b, bool_code_read c (bool_code_write c b) = b.
+Proof. exact bool_code_roundtrip. Qed.
+Theorem c11_bool_code_swapped_refuted :
+  bool_code_ok (2, 3, 3)%N = false /\ bool_code_read (2, 3, 3)%N (bool_code_write (2, 3, 3)%N true) = false.
+Proof. exact bool_code_swapped_refuted. Qed.
+
+(** * A cross reference through the file: table with key -> index -> integer field of the referring record -> reader's
+    table look-up.  Composes c11_dedup_key_roundtrip with c11_unpack_pack: if the key passes [key_determines] and every
+    index handed out fits the field (else struct raises, c11_pack_rejects), the record found through the unpacked index is
+    the record of the object referred to -- for every initial table and every sequence of referred objects. *)
+Theorem c11_reference_roundtrip : forall admitted fields k tr l xs sg w,
+  key_determines admitted fields k = true ->
+  (forall v, tr ""%string v = v) ->
+  (forall o, In o (l ++ xs) -> map fst (snd o) = fields) ->
+  (forall o o', In o (l ++ xs) -> In o' (l ++ xs) -> fst o = fst o' -> o = o') ->
+  (forall t, In t admitted -> forall o o' f v v', In o (l ++ xs) -> In o' (l ++ xs) ->
+     assoc_f f (snd o) = Some v -> assoc_f f (snd o') = Some v' -> tr t v = tr t v' -> v = v') ->
+  (0 < w)%nat ->
+  forall s' is, dd_run (key_sem tr k) keyval_eqb (dd_init (key_sem tr k) l) xs = (s', is) ->
+  Forall (fun i => in_range sg w (Z.of_nat i) = true) is ->
+  Forall2 (fun o i => exists bs, pack [KInt sg w] [VInt (Z.of_nat i)] = Some bs /\
+                                 exists z, unpack [KInt sg w] bs = Some [VInt z] /\ read_back (fst s') (Z.to_nat z) = Some (snd o)) xs is.
+Proof. exact reference_roundtrip. Qed.
